@@ -423,5 +423,68 @@ func TestVerif_C28_Store(t *testing.T) {
 		c28RsExec(tr, c)
 		tr.Count("store_cases", 1)
 	}
+	// (b) one peer id re-announcing from a nearby address/port on ONE store, with GetPeers in between: ports differing by
+	// +-1, by dropped / appended trailing 0/1 digits, addresses differing in trailing 0/1/':' characters, complete-bit flips
+	nearPorts := func(p int) []int {
+		out := []int{p + 1, p - 1, p*10 + 0, p*10 + 1, p / 10, p / 100, p + 10, p ^ 1}
+		s := strconv.Itoa(p)
+		if t := strings.TrimRight(s, "01"); t != s && t != "" {
+			v, _ := strconv.Atoi(t)
+			out = append(out, v)
+		}
+		return out
+	}
+	nearAddrs := func(a string) []string {
+		return []string{a, a + "0", a + "1", a + "10", strings.TrimRight(a, "01"), a + ":", a + ":1", strings.TrimRight(a, ":01")}
+	}
+	for i := 0; i < verifh.Scale(150, 6000); i++ {
+		size := []int{1, 5, 30}[r.Intn(3)]
+		mx := 1 + r.Intn(4)
+		t0 := c28Base + int64(r.Intn(100000))
+		c := verifh.Case{Cfg: []string{fmt.Sprintf("size=%d", size), fmt.Sprintf("max=%d", mx), fmt.Sprintf("t0=%d", t0)}}
+		pid := r.Bytes(20)
+		addr := []string{"10.0.0.1", "10.0.0.2", "192.168.1.100", "::1", "fe80::1", "host-1", "h", "2001:db8::10"}[r.Intn(8)]
+		port := []int{8080, 8081, 5000, 50, 6881, 1, 10, 100, 65535, 80, 8000, 1111}[r.Intn(12)]
+		h := hashes[0]
+		upd := func(hh, a string, p int, cpl bool) {
+			c.Ops = append(c.Ops, append([]string{"op", "update", "h=" + hh}, c28PeerToks(pid, a, p, cpl)...))
+		}
+		get := func(hh string) { c.Ops = append(c.Ops, []string{"op", "get", "h=" + hh, "n=1000"}) }
+		cpl := r.Chance(1, 3)
+		upd(h, addr, port, cpl)
+		get(h)
+		steps := 1 + r.Intn(4)
+		for j := 0; j < steps; j++ {
+			if r.Chance(1, 3) {
+				c.Ops = append(c.Ops, []string{"op", "tick", strconv.Itoa(r.Intn(size*mx + 2))})
+			}
+			a2, p2 := addr, port
+			switch r.Intn(4) {
+			case 0, 1:
+				ps := nearPorts(port)
+				p2 = ps[r.Intn(len(ps))]
+			case 2:
+				as := nearAddrs(addr)
+				a2 = as[r.Intn(len(as))]
+			default:
+				cpl = !cpl
+			}
+			hh := h
+			if r.Chance(1, 6) {
+				hh = hashes[1]
+			}
+			upd(hh, a2, p2, cpl)
+			get(hh)
+			if r.Chance(1, 3) {
+				addr, port = a2, p2
+			}
+		}
+		get(h)
+		if i < 1 {
+			tr.Sample(fmt.Sprint("re-announce ", c.Ops))
+		}
+		c28RsExec(tr, c)
+		tr.Count("reannounce_cases", 1)
+	}
 	_ = sort.Strings
 }
